@@ -924,6 +924,10 @@ impl<T: TS, const N: usize> TS for [T; N] {
     where
         Self: 'static,
     {
+        // `[T; 0]` is `[]`: it does not mention `T`
+        if N == 0 {
+            return;
+        }
         <T as crate::TS>::visit_dependencies(v);
     }
 
@@ -931,6 +935,9 @@ impl<T: TS, const N: usize> TS for [T; N] {
     where
         Self: 'static,
     {
+        if N == 0 {
+            return;
+        }
         <T as crate::TS>::visit_generics(v);
         v.visit::<T>();
     }
